@@ -85,7 +85,7 @@ func (s *faultSink) Write(p []byte) (int, error) {
 	return s.buf.Write(p)
 }
 
-var c14Scenarios = []string{"plain", "nobuf", "file_pages", "deferred_bloom", "sorting_writer", "concurrent_rowgroups", "copy_rowgroup", "chunk_pages"}
+var c14Scenarios = []string{"plain", "nobuf", "file_pages", "deferred_bloom", "sorting_writer", "concurrent_rowgroups", "copy_rowgroup", "chunk_pages", "auto_rowgroups"}
 
 // c14Produce runs one writer scenario against a sink and returns the first error of any call.
 func c14Produce(scenario string, te *typeEntry, rows reflect.Value, src *parquet.File, sink io.Writer, seed uint64) (err error) {
@@ -146,6 +146,19 @@ func c14Produce(scenario string, te *typeEntry, rows reflect.Value, src *parquet
 		w := te.ops.NewWriter(sink, base...)
 		for _, rg := range src.RowGroups() {
 			if _, err := w.WriteRowGroup(rg); err != nil {
+				return err
+			}
+		}
+		return w.Close()
+	case "auto_rowgroups":
+		// single Write calls that cross several automatic row-group boundaries, unbuffered sink
+		w := te.ops.NewWriter(sink, append(base, parquet.MaxRowsPerRowGroup(int64(gen.Pick(rr, []int{1, 3, 7}))), parquet.WriteBufferSize(0))...)
+		step := gen.Pick(rr, []int{n, 20, 5})
+		if step < 1 {
+			step = 1
+		}
+		for lo := 0; lo < n; lo += step {
+			if _, err := te.ops.Write(w, rows.Slice(lo, min(n, lo+step))); err != nil {
 				return err
 			}
 		}
